@@ -209,6 +209,13 @@ Theorem C04_hourly_payout_once_per_due_hour : forall s o s' id,
                                         <| po_next_at := if po_hours po - 1 =? 0 then tzero else po_next_at po + HOUR |>)).
 Proof. exact step_payout_events. Qed.
 
+(* ... and over a whole history a payout is paid at most as many times as it has hours left (so a subscription for h hours
+   is paid at most h hourly payouts in total, whatever the block gaps and stalls) *)
+Theorem C04_hourly_payouts_within_hours : forall ops s id po,
+  life_inv s -> wf_hist wf_op_life s ops -> payouts s !! id = Some po ->
+  cnt (is_payout_ev id) (trace s ops) <= Z.max 0 (po_hours po).
+Proof. exact trace_payouts_within_hours. Qed.
+
 (* non-vacuity: in the witness history session 1 is removed once and paid for once, payouts 1 and 3 are
    each paid twice (in two different blocks), among 43 events *)
 Example C04_events_nonvacuous :
@@ -253,3 +260,4 @@ Print Assumptions C04_session_events_in_one_operation.
 Print Assumptions C04_session_settled_at_most_once.
 Print Assumptions C04_session_settled_exactly_once.
 Print Assumptions C04_hourly_payout_once_per_due_hour.
+Print Assumptions C04_hourly_payouts_within_hours.
